@@ -661,9 +661,9 @@ func checkBCE(c *Ctx, roots []*ssa.Function) {
 	R := c.R
 	cache := filepath.Join(core.VerifDir(), ".cache", "gobuild")
 	os.MkdirAll(cache, 0o755)
-	cmd := exec.Command("go", "build", "-gcflags="+core.ModulePath+"/...=-d=ssa/check_bce/debug=1", "./...")
+	cmd := exec.Command(core.GoBin+"/go", "build", "-gcflags="+core.ModulePath+"/...=-d=ssa/check_bce/debug=1", "./...")
 	cmd.Dir = c.P.Dir
-	cmd.Env = append(os.Environ(), "GOFLAGS=-mod=readonly", "GOWORK=off", "CGO_ENABLED=0", "GOOS=linux", "GOARCH=amd64", "GOPROXY=off", "GOSUMDB=off", "GOTOOLCHAIN=local", "GOCACHE="+cache)
+	cmd.Env = append(os.Environ(), "PATH="+core.GoBin+":"+os.Getenv("PATH"), "GOFLAGS=-mod=readonly", "GOWORK=off", "CGO_ENABLED=0", "GOOS=linux", "GOARCH=amd64", "GOPROXY=off", "GOSUMDB=off", "GOTOOLCHAIN=local", "GOCACHE="+cache)
 	outb, err := cmd.CombinedOutput()
 	if err != nil && !bceLine.Match(outb) {
 		R.Fail("R09.3", "bce-oracle#build", 0, "", "compiler oracle failed to run: "+err.Error()+": "+firstLine(string(outb)))
